@@ -842,6 +842,17 @@ func (e *MetaCDC) startInternal(info *meta.TaskInfo, ignoreUpdateState bool) err
 		err = store.UpdateTaskState(e.metaStoreFactory.GetTaskInfoMetaStore(ctx), info.TaskID, meta.TaskStateRunning, []meta.TaskState{meta.TaskStateInitial, meta.TaskStatePaused}, "")
 		if err != nil {
 			taskLog.Warn("fail to update the task meta", zap.Error(err))
+			// the task does not start: give back what was registered for it above
+			e.replicateEntityMap.Lock()
+			if quitFunc, ok := replicateEntity.taskQuitFuncs.GetAndRemove(info.TaskID); ok {
+				quitFunc()
+				replicateEntity.refCnt.Dec()
+			}
+			if replicateEntity.refCnt.Load() == 0 {
+				replicateEntity.entityQuitFunc()
+				delete(e.replicateEntityMap.data, uKey)
+			}
+			e.replicateEntityMap.Unlock()
 			return servererror.NewServerError(errors.WithMessage(err, "fail to update the task meta, task_id: "+info.TaskID))
 		}
 	}
